@@ -116,23 +116,9 @@ def owned_delegates(rep, F, rule):
                   rule, nm, "ScalarOwned::%s no longer delegates to Scalar::%s and into_owned" % (nm, nm), site=f.span, detail=cs)
 
 
-def run(tier):
-    rep = new_report(tier)
-    F = facts.load()
-    pfc = F.fn(SC + "::parse_from_cow")
+def quoted_is_string(rep, F, rule="quoted-is-string"):
+    """every style other than Plain (single- and double-quoted, literal, folded) returns String(v) before any type resolution runs"""
     pfm = F.fn(SC + "::parse_from_cow_and_metadata")
-    pf64 = F.fn("saphyr::loader::parse_f64")
-
-    # (a) text identity
-    n = 0
-    for f in (pfc, pfm):
-        for bi, si, s in cfg.stmts(f):
-            if s["k"] == "assign" and s["rv"]["k"] == "agg" and s["rv"].get("adt") == SC and s["rv"]["variant"] == "String":
-                n += 1
-                e = cfg.expr_operand(f, s["rv"]["ops"][0], 8)
-                rep.check(e == ("param", 1), "text-identity", "%s:String#%d" % (short(f.key), n),
-                          "a Scalar::String is built from something other than the untouched input text", site=site(f, s["sp"]), detail=cfg.expr_str(e))
-    rep.floor("Scalar::String constructions in the resolver", n, 2)
     # non-plain styles return String(v) before any parser call: the style test dominates every parser call
     style_sw = None
     for bi, b in enumerate(pfm.blocks):
@@ -156,8 +142,29 @@ def run(tier):
             others = [bb for bb, t, ck, fr in pfm.calls() if ck and (ck.startswith("str::parse") or ck == SC + "::parse_from_cow" or ck == "saphyr::loader::parse_f64")]
             if built == {"String"} and not foreign and others and all(cfg.dominated_by_edge(pfm, ob, style_sw, tg_p) for ob in others):
                 okstyle = True
-    rep.check(okstyle, "quoted-is-string", "parse_from_cow_and_metadata", "a non-plain scalar no longer returns String(v) before any type resolution runs",
+    rep.check(okstyle, rule, "parse_from_cow_and_metadata", "a non-plain scalar no longer returns String(v) before any type resolution runs",
               site=pfm.span)
+
+
+
+def run(tier):
+    rep = new_report(tier)
+    F = facts.load()
+    pfc = F.fn(SC + "::parse_from_cow")
+    pfm = F.fn(SC + "::parse_from_cow_and_metadata")
+    pf64 = F.fn("saphyr::loader::parse_f64")
+
+    # (a) text identity
+    n = 0
+    for f in (pfc, pfm):
+        for bi, si, s in cfg.stmts(f):
+            if s["k"] == "assign" and s["rv"]["k"] == "agg" and s["rv"].get("adt") == SC and s["rv"]["variant"] == "String":
+                n += 1
+                e = cfg.expr_operand(f, s["rv"]["ops"][0], 8)
+                rep.check(e == ("param", 1), "text-identity", "%s:String#%d" % (short(f.key), n),
+                          "a Scalar::String is built from something other than the untouched input text", site=site(f, s["sp"]), detail=cfg.expr_str(e))
+    rep.floor("Scalar::String constructions in the resolver", n, 2)
+    quoted_is_string(rep, F)
 
     # (a') the untagged reading (parse_from_cow: the type is guessed from the text) is reached only when the caller gave no tag: every
     # call of it is dominated by the None edge of a test on the `tag` parameter itself.  A test on something derived from the tag (a
